@@ -30,6 +30,12 @@ def treeInt (x : Tree) : M Nat :=
   | .tok s => match s.toNat? with | some n => pure n | none => throw (.fault "ValueError")
   | .grp _ => throw (.fault "TypeError")
 
+/-- `x.replace(a, b)` for a token tree: a str method (all occurrences of `a` replaced); a list has no such attribute: AttributeError -/
+def treeReplace (x : Tree) (a b : String) : M Tree :=
+  match x with
+  | .tok s => pure (.tok (s.replace a b))
+  | .grp _ => throw (.fault "AttributeError")
+
 /-- the items `for y in x` visits: the items of a list, the one-character strs of a str -/
 def treeItems (x : Tree) : List Tree :=
   match x with
@@ -64,6 +70,14 @@ structure Env (ω : Type) where
   RTYPES : Py.StrSet
   g12 : Py.FloatLit → String
   strL : List PP.Tree → String
+  -- requests of the `strand-complex` branch (defaults: an environment that does not provide them refuses)
+  strand_sequence : Handle → Py.MS ω (List Handle) := fun _ => throw (.fault "no-request:strand_sequence")   -- list(x.sequence) of a strand object
+  strand_table_to_sequence : List (List Handle) → Py.MS ω (List (Option Handle)) := fun st =>           -- the imported function (complex_utils):
+    match st.map (fun l => l.map some) with                                                              -- reduce(lambda a, b: a + ['+'] + b, st)
+    | [] => throw (.fault "TypeError")
+    | a :: rest => pure (rest.foldl (fun acc b => acc ++ [none] ++ b) a)
+  ComplexNew : List (Option Handle) → List PP.Tree → PP.Tree → Py.MS ω Handle :=                         -- Complex(sequence, list(structure), name = n)
+    fun _ _ _ => throw (.fault "no-request:ComplexNew")
 
 /-- `G(args)` for a slot `G`: the arguments have been evaluated; calling `None` is a TypeError ("'NoneType' object is not callable"), otherwise
     the request is made -/
